@@ -484,7 +484,7 @@ LAYOUTS = ['as-built', 'touch-sample', 'touch-obs', 'touch-both',
            'filtered-keep-all', 'after-nnz', 'coo-input', 'deepcopied',
            'pickled', 'narrow-dtype-input', 'after-queries',
            'csr-duplicate-entries', 'csc-duplicate-entries',
-           'table-subclass']
+           'table-subclass', 'zero-written-csr', 'zero-written-csc']
 
 
 _SUBCLASS = {}
@@ -506,6 +506,31 @@ def apply_layout(biom, spec, recipe, r):
     n, m = spec.D.shape
     if recipe == 'as-built':
         return build(biom, spec, 'dense')
+    if recipe in ('zero-written-csr', 'zero-written-csc'):
+        # a zero cell that is *stored*: the table is built with a value
+        # there, which is then overwritten with 0 through the public
+        # matrix_data handle (the constructor keeps no stored zeros itself)
+        zr, zc = np.nonzero(spec.D == 0)
+        if not len(zr):
+            return build(biom, spec, 'dense')
+        sp2 = spec.copy()
+        picks = r.sample(range(len(zr)), min(len(zr), r.randint(1, 2)))
+        for q in picks:
+            sp2.D[zr[q], zc[q]] = 7.0
+        t = build(biom, sp2, 'dense')
+        if recipe == 'zero-written-csc' and m:
+            t.data(t.ids()[0], axis='sample')           # leaves CSC behind
+        mat = t.matrix_data
+        if mat.getformat() not in ('csr', 'csc'):
+            return build(biom, spec, 'dense')
+        mat.sort_indices()
+        for q in picks:
+            i, j = int(zr[q]), int(zc[q])
+            major, minor = (i, j) if mat.getformat() == 'csr' else (j, i)
+            lo, hi = mat.indptr[major], mat.indptr[major + 1]
+            pos = lo + int(np.searchsorted(mat.indices[lo:hi], minor))
+            mat.data[pos] = 0.0
+        return t
     if recipe == 'coo-input':
         return build(biom, spec, 'coo')
     if recipe in ('csr-stored-zeros', 'csc-stored-zeros', 'csr-unsorted'):
